@@ -136,6 +136,11 @@ def m_index_full(ex, c, a, m):
     return a[0]
 
 
+@model(r'(std::thread::)?panicking')
+def m_panicking(ex, c, a, m):
+    return False        # the engine ends a path at a panic: no destructor ever runs during unwinding
+
+
 @model(r'Arc::<.+>::make_mut')
 def m_arc_make_mut(ex, c, a, m):
     # clone-on-write: the engine keeps no reference counts, so it always takes the cloning branch (the two branches differ
